@@ -16,6 +16,7 @@ Per emitted TLC state (table contents + call history + oracle):
 from __future__ import annotations
 
 import json
+import os
 import time
 from collections import Counter
 
@@ -164,6 +165,35 @@ class World:
             return rel.transferred_to(engines()[c["dest"]])
         raise MachineryError(f"unknown call {c}")
 
+    def build_raw(self):
+        """The same operation sequence assembled bottom-up with the plain
+        constructors (no engine help); binary operands are API-built relations."""
+        from lsst.daf.relation import BinaryOperationRelation, UnaryOperationRelation
+        from lsst.daf.relation import _operations as ops
+
+        t = self.leaves["T1"].skip_to     # the bare LeafRelation
+        for c in self.st["hist"]:
+            f = c["f"]
+            if f == "un":
+                op = build.unary_op(c["op"])
+                t = UnaryOperationRelation(operation=op, target=t, columns=frozenset(op.applied_columns(t)))
+            elif f in ("join", "joinl"):
+                other = self.operand(c["rhs"] if f == "join" else c["lhs"])
+                lhs, rhs = (t, other) if f == "join" else (other, t)
+                common = frozenset(x for x in lhs.columns & rhs.columns if x.is_key)
+                p = c.get("p", {"p": "lit", "v": True})
+                jop = ops.Join(build.pred(p), min_columns=common, max_columns=common)
+                t = BinaryOperationRelation(operation=jop, lhs=lhs, rhs=rhs, columns=frozenset(lhs.columns | rhs.columns))
+            elif f in ("chain", "chainl"):
+                other = self.operand(c["rhs"] if f == "chain" else c["lhs"])
+                lhs, rhs = (t, other) if f == "chain" else (other, t)
+                t = BinaryOperationRelation(operation=ops.Chain(), lhs=lhs, rhs=rhs, columns=frozenset(lhs.columns))
+            elif f == "xfer":
+                pass
+            else:
+                raise MachineryError(f"raw: unknown call {c}")
+        return t
+
     def build(self):
         rel = self.leaves["T1"]
         breaks = []
@@ -195,7 +225,7 @@ def brief(st):
     return {k: st[k] for k in ("t1", "t2", "t3", "bnd", "lmin", "lmax", "hist")}
 
 
-def replay_state(st: dict, out: dict, want_event: bool, want_rejects: bool = True) -> None:
+def replay_state(st: dict, out: dict, want_event: bool, want_rejects: bool = True, want_raw: bool = True) -> None:
     from lsst.daf.relation import Diagnostics
 
     case = brief(st)
@@ -308,6 +338,47 @@ def replay_state(st: dict, out: dict, want_event: bool, want_rejects: bool = Tru
         if fingerprint(rel) != fp:
             V(["C20", "C09"], "a rejected request changed an existing relation", request=c)
         cnt["rejects_checked"] = cnt.get("rejects_checked", 0) + 1
+    # ---- C17: conform of the raw (engine-less) tree for the same operation sequence
+    if want_raw:
+        try:
+            w2 = World(st)
+            raw = w2.build_raw()
+            try:
+                conf = w2.sql.conform(raw)
+                conf_err = None
+            except Exception as exc:  # noqa: BLE001
+                conf, conf_err = None, exc
+            model_err = st["rawconf"].get("err") if isinstance(st["rawconf"], dict) else None
+            if conf_err is not None:
+                if type(conf_err).__name__ != "RelationalAlgebraError":
+                    V(["C17", "C08"], f"conform() of a well-formed raw tree raised {type(conf_err).__name__}: {str(conf_err)[:200]}")
+                elif model_err is None:
+                    out["n_drift"] += 1
+            else:
+                if w2.sql.conform(conf) is not conf:
+                    V(["C17"], "conform() of an already conformed tree did not return the same object")
+                bad2 = _compound_flags(project.tree(conf))
+                if bad2:
+                    V(["C17"], "is_compound flag of a conformed raw tree disagrees with its skip target", nodes=bad2[:2])
+                raw_same = model_err is None and canon_tree(project.strip_sel_target(project.tree(conf))) == canon_tree(project.strip_sel_target(st["rawconf"]))
+                if not raw_same:
+                    out["n_drift"] += 1
+                    if len(out["drift"]) < 3:
+                        out["drift"].append({"what": "conformed raw tree differs from the model", "case": case})
+                if not st["rawnested"] and (raw_same or not _has_slice(project.tree(conf))) and st["rawdet"]:
+                    for reverse in (False, True):
+                        got = run_sql(w2.sql, conf, reverse)
+                        cnt["raw_bag_compared"] = cnt.get("raw_bag_compared", 0) + 1
+                        if bag(got) != bag(exp):
+                            V(["C17", "C02"], "rows of the conformed raw tree differ (as a multiset) from direct evaluation of the raw tree",
+                              observed=got, expected=exp, reverse_unordered_selects=reverse)
+                if want_event or not raw_same:
+                    out["events"].append({"tree": full_tree(conf), "env": {"T1": st["t1"], "T2": st["t2"], "T3": st["t3"]},
+                                          "rows": st["rows"], "bag": True, "checks": ["wf", "coh", "denbag"], "case": dict(case, raw=True)})
+        except MachineryError:
+            raise
+        except Exception as exc:  # noqa: BLE001
+            V(["C17", "C08"], f"building/conforming/executing the raw tree raised {type(exc).__name__}: {str(exc)[:300]}")
     if want_event or not same_shape:
         out["events"].append({"tree": full_tree(rel), "env": {"T1": st["t1"], "T2": st["t2"], "T3": st["t3"]},
                               "rows": st["rows"], "bag": True,
@@ -350,7 +421,8 @@ def worker(lines, ctx):
         out["n"] += 1
         if st["fired"]:
             out["nontrivial"] += 1
-        replay_state(st, out, want_event=(i % every == 0), want_rejects=(i % ctx.get("rejects_every", 1) == 0))
+        replay_state(st, out, want_event=(i % every == 0), want_rejects=(i % ctx.get("rejects_every", 1) == 0),
+                     want_raw=(i % ctx.get("raw_every", 1) == 0))
         if len(out["violations"]) > 40:
             out["violations"] = out["violations"][:40]
         if len(out["samples"]) < 1 and st["fired"] and len(st["hist"]) >= 2:
@@ -358,7 +430,7 @@ def worker(lines, ctx):
     return out
 
 
-CLAUSE_PROPS = {"wf": ["C14"], "den": ["C02"], "denbag": ["C02", "C08"], "denlist": ["C11"], "meta": ["C06"], "coh": ["C17"]}
+CLAUSE_PROPS = {"wf": ["C14"], "den": ["C02"], "denbag": ["C02", "C17"], "denlist": ["C11"], "meta": ["C06"], "coh": ["C17"]}
 
 CONFIGS = {
     "quick": [("SqlQuick.cfg", 6), ("SqlFocusQ.cfg", 4), ("SqlChainQ.cfg", 4)],
@@ -377,7 +449,13 @@ def run(tier: str, seed: int) -> list[Part]:
             raise MachineryError(f"model-level violation of {res.violated} in {cfg}:\n{res.error_text}")
         part = Part(name=f"sqlprogram:{cfg}", cfg=cfg, states=res.distinct, transitions=res.generated)
         t1 = time.time()
-        outs = parallel_replay(worker, res.raw_lines(), ctx={"event_every": every, "rejects_every": 4 if tier == "quick" else 1}, chunk=200)
+        focus = os.environ.get("VERIF_FOCUS", "")
+        quick = tier == "quick"
+        ctx = {"event_every": every * (2 if quick and focus in ("C16", "C20") else 1),
+               "rejects_every": (4 if focus in ("C20", "C11") else 12) if quick else 1,
+               # the raw-tree conform pass bears on C17 (and on C02/C08 through its rows)
+               "raw_every": (2 if focus == "C17" else 6 if focus in ("C02", "C08") else 10**9) if quick else 1}
+        outs = parallel_replay(worker, res.raw_lines(), ctx=ctx, chunk=200)
         merge_worker_outputs(part, outs)
         t2 = time.time()
         events = [ev for o in outs for ev in o.get("events", [])]
